@@ -457,3 +457,103 @@ func c09Concurrent(rt *rapid.T) {
 }
 
 func TestC09Concurrent(t *testing.T) { rapid.Check(t, c09Concurrent) }
+
+// A request that the library completed EARLY - its undelivered pages exceeded MaxPending, or it timed out - still holds its
+// stream id until its final response arrives ("once a request's final response has arrived its id is assignable again").
+// Scenario: fill N requests, complete a generated subset early (overflow or timeout), deliver everybody's final response
+// (in its four forms), then nothing may be registered any more and N new managed sends must succeed with ids 1..N.
+func c09ClosedEarly(rt *rapid.T) {
+	rec := stats.For("C09")
+	n := rapid.IntRange(1, 6).Draw(rt, "N")
+	maxPending := rapid.IntRange(1, 4).Draw(rt, "maxPending")
+	byTimeout := rapid.Bool().Draw(rt, "byTimeout")
+	timeout := time.Hour
+	if byTimeout {
+		timeout = 40 * time.Millisecond
+	}
+	ctx, cancel := context.WithCancel(context.Background())
+	defer cancel()
+	h := client.NewVerifInFlight(ctx, n, maxPending, timeout)
+	defer h.Close()
+	type ent struct {
+		id   int16
+		req  client.InFlightRequest
+		mode string
+	}
+	var reqs []ent
+	explicit := rapid.Bool().Draw(rt, "explicitIds")
+	for k := 0; k < n; k++ {
+		id := int16(client.ManagedStreamId)
+		if explicit {
+			id = int16(100 + k)
+		}
+		f := reqFrame(id)
+		r, err := h.Enqueue(f)
+		if err != nil {
+			rt.Fatalf("N=%d: send %d of %d refused with nothing answered yet: %v", n, k+1, n, err)
+		}
+		reqs = append(reqs, ent{f.Header.StreamId, r, "normal"})
+	}
+	early := 0
+	for k := range reqs {
+		if byTimeout {
+			reqs[k].mode = "timeout" // every request of this handler times out
+			early++
+			continue
+		}
+		if rapid.Bool().Draw(rt, fmt.Sprintf("overflow%d", k)) {
+			reqs[k].mode = "overflow"
+			early++
+			extra := rapid.IntRange(1, 3).Draw(rt, fmt.Sprintf("extra%d", k))
+			for p := 1; p <= maxPending+extra; p++ {
+				_ = h.Deliver(pageFrame(reqs[k].id, int32(p), false)) // nobody reads: the pages beyond MaxPending are refused
+			}
+			if !reqs[k].req.IsDone() || reqs[k].req.Err() == nil {
+				rt.Fatalf("N=%d maxPending=%d: request %d got %d unread pages but is not failed (IsDone=%v Err=%v)", n, maxPending, reqs[k].id, maxPending+extra, reqs[k].req.IsDone(), reqs[k].req.Err())
+			}
+		}
+	}
+	if byTimeout {
+		deadline := time.Now().Add(10 * time.Second)
+		for _, e := range reqs {
+			for !e.req.IsDone() {
+				if time.Now().After(deadline) {
+					rt.Fatalf("request %d not timed out after 10 s (timeout %v)", e.id, timeout)
+				}
+				time.Sleep(5 * time.Millisecond)
+			}
+		}
+	}
+	// every request's final response arrives (the early-completed ones may refuse the frame; their id must be freed anyway)
+	order := rapid.Permutation(reqs).Draw(rt, "finalOrder")
+	for k, e := range order {
+		err := h.Deliver(finalFrameV(e.id, int32(maxPending+4), rapid.IntRange(0, 3).Draw(rt, fmt.Sprintf("form%d", k))))
+		if err != nil && e.mode == "normal" {
+			rt.Fatalf("final response for the open request %d rejected: %v", e.id, err)
+		}
+	}
+	if h.Len() != 0 {
+		rt.Fatalf("N=%d maxPending=%d early=%d (%s): %d request(s) still registered after every request's final response has arrived", n, maxPending, early, map[bool]string{true: "timeout", false: "overflow"}[byTimeout], h.Len())
+	}
+	seen := map[int16]bool{}
+	for k := 0; k < n; k++ {
+		f := reqFrame(client.ManagedStreamId)
+		if _, err := h.Enqueue(f); err != nil {
+			rt.Fatalf("N=%d maxPending=%d: after every final response arrived (%d requests had been completed early by %s, explicit ids=%v) only %d of %d new managed sends succeeded: %v (a stream id or a slot was lost)",
+				n, maxPending, early, map[bool]string{true: "timeout", false: "overflow"}[byTimeout], explicit, k, n, err)
+		}
+		id := f.Header.StreamId
+		if id < 1 || int(id) > n || seen[id] {
+			rt.Fatalf("refill handed out stream id %d (duplicate or outside 1..%d)", id, n)
+		}
+		seen[id] = true
+	}
+	if _, err := h.Enqueue(reqFrame(client.ManagedStreamId)); err == nil {
+		rt.Fatalf("send number %d accepted with limit %d", n+1, n)
+	}
+	rec.Case(early > 0, stats.HashString(fmt.Sprintf("early/%d/%d/%v/%v/%d", n, maxPending, byTimeout, explicit, early)), func() string {
+		return fmt.Sprintf("closed-early: N=%d maxPending=%d, %d requests completed early by %s, explicit ids=%v, then all finals, then refill", n, maxPending, early, map[bool]string{true: "timeout", false: "overflow"}[byTimeout], explicit)
+	}, "closed-early", fmt.Sprintf("closed-early:timeout=%v", byTimeout))
+}
+
+func TestC09ClosedEarly(t *testing.T) { rapid.Check(t, c09ClosedEarly) }
